@@ -1,3 +1,4 @@
-"""Properties not claimed (with reason) and checks temporarily disabled. Claimed checks carry a REGISTRY dict in checks/cXX.py."""
+"""ENABLED: properties whose check the integrator has accepted into MANIFEST.json (each carries a REGISTRY dict in
+checks/cXX.py). NOT_APPLICABLE: reason text for properties not claimed."""
+ENABLED = {"C21"}
 NOT_APPLICABLE = {}
-DISABLED = set()
